@@ -258,9 +258,25 @@ type OutCase struct {
 	Remove  bool      `json:"remove"`
 	Strict  bool      `json:"strict"`
 	Class   string    `json:"class"`
+	// PreDrop: the same outgroup list is first used on the tree without these tips (as the
+	// command does for every tree of a stream); the call under test then re-uses the list.
+	PreDrop []string `json:"pre_drop,omitempty"`
 }
 
 func checkOut(c OutCase) error {
+	arg := append([]string(nil), c.Out...)
+	if len(c.PreDrop) > 0 {
+		drop := map[string]bool{}
+		for _, n := range c.PreDrop {
+			drop[n] = true
+		}
+		small := ref.Restrict(c.Tree, func(n string) bool { return !drop[n] })
+		if small != nil && len(small.Tips()) >= 3 && len(small.Ch) >= 2 {
+			if st, _, perr := prepare(small, c.Indexed); perr == nil {
+				st.RerootOutGroup(false, c.Strict, arg...) // its own result is judged in other cases
+			}
+		}
+	}
 	t, ub, err := prepare(c.Tree, c.Indexed)
 	if err != nil {
 		return err
@@ -274,7 +290,7 @@ func checkOut(c OutCase) error {
 			present = append(present, n)
 		}
 	}
-	err = t.RerootOutGroup(c.Remove, c.Strict, c.Out...)
+	err = t.RerootOutGroup(c.Remove, c.Strict, arg...)
 	if len(present) == 0 {
 		if err == nil {
 			return fmt.Errorf("outgroup with no name present in the tree was accepted")
@@ -436,6 +452,20 @@ func genOut(t *rapid.T, thorough bool) OutCase {
 	case "all-absent":
 		c.Out = []string{"zz_absent", "zz_absent2"}
 	}
+	if len(c.Out) >= 2 && len(tips) >= 5 && rapid.IntRange(0, 3).Draw(t, "pre") == 0 {
+		var real []string
+		for _, n := range c.Out {
+			if n != "zz_absent" && n != "zz_absent2" {
+				real = append(real, n)
+			}
+		}
+		if len(real) >= 1 && len(tips)-len(real) >= 2 {
+			c.PreDrop = gen.Subset(t, real, 1, len(real), "predrop")
+			if len(tips)-len(c.PreDrop) < 3 {
+				c.PreDrop = c.PreDrop[:len(tips)-3]
+			}
+		}
+	}
 	if c.Remove {
 		// at least three tips remain
 		left := len(tips)
@@ -454,7 +484,7 @@ func genOut(t *rapid.T, thorough bool) OutCase {
 func TestC05Outgroup(t *testing.T) {
 	h.Run(t, h.Spec[OutCase]{
 		Property: "C05", Name: "outgroup", Quick: 16000, Thorough: 800000,
-		Rule: "same trees x outgroup of classes {clade, complement of a clade, single tip, random subset, subset mixed with absent names, only absent names} x strict x remove (>=3 tips remain) x indexed or not; oracle = split-side predicate from the reference split set, root-clade / equal-halves predicates, Restrict for removal; non-trivial = multifurcating or rooted input, zero-length branch, or complement outgroup",
+		Rule: "same trees x outgroup of classes {clade, complement of a clade, single tip, random subset, subset mixed with absent names, only absent names} x strict x remove (>=3 tips remain) x indexed or not; in a quarter of the cases the same list was first used on the tree pruned of some outgroup tips (stream usage); oracle = split-side predicate from the reference split set, root-clade / equal-halves predicates, Restrict for removal; non-trivial = multifurcating or rooted input, zero-length branch, or complement outgroup",
 		Gen:   genOut,
 		Check: indexesAfter(checkOut),
 		Classify: func(c OutCase) (bool, []string) {
